@@ -266,7 +266,42 @@ def _inv_strategy(draw, tier='quick'):
     return case
 
 
+def check_high_order(case, ctx):
+    """series orders up to 30: kM vs the exact separable reference (R1 recognised by the flipped u-w / v-w coupling blocks)."""
+    from ..ref import exact
+    pd = pkg.make_pdef(case)
+    d = case['lam']['offset']
+    h = pkg.lam_h(case)
+    name = 'kM.high-order[%s]' % case['model']
+    ctx.nontrivial = max(case['m'], case['n']) >= 14
+    ctx.label('model:' + case['model'], 'max(m,n):%d' % (max(case['m'], case['n']) // 5 * 5), 'offset:%s' % ('zero' if d == 0 else 'non-zero'))
+    p = pkg.make_panel(case)
+    with package(name):
+        M = dense(p.calc_kM(silent=True))
+    ref_phys = exact.kM(pd, case['mu'], h, d, -1.)
+    ctx.close('symmetry', M, M.T, 1e-13, bucket=name + '.symmetry')
+    try:
+        pkg.compare_matrix(ctx, name, M, ref_phys, 1e-10, num=pd.num, bucket=name)
+    except Violation as v:
+        if pd.num == 3 and d != 0.:
+            try:
+                pkg.compare_matrix(ctx, name + '(coupling sign flipped)', M, _flip_coupling(ref_phys, pd, 0, pd.ndof), 1e-10, num=3, bucket=name)
+            except Violation:
+                raise v
+            ctx.known(R1, v.bucket, v.msg)
+        else:
+            raise
+
+
+@st.composite
+def _high_order_strategy(draw, tier='quick'):
+    return draw(pkg.high_order_case(tier, with_mu=True))
+
+
 SUBS = [
+    Sub('high_order', _high_order_strategy, check_high_order, quick=48, thorough=400,
+        rule='plate / w-only / cylindrical panels with series orders 7..30 (quick: m*n <= 330): calc_kM vs the exact separable reference '
+             '(rational 1-D integrals); non-trivial = an order >= 14', shards_quick=16),
     Sub('kM', _strategy, check_kM, quick=320, thorough=6000,
         rule='all four models x geometry x flags x (m,n) x sub-interval x placement x mu x offset of both signs; calc_kM vs '
              'kinetic-energy Hessian, every entry; non-trivial = offset != 0 and some u/v flag non-zero', shards_quick=16),
